@@ -3,7 +3,7 @@
    removed, escape-aware label walk) and dba5ede (the refresh parses downloads only). *)
 From Coq Require Import Permutation.
 From Sdns Require Import Common.Base Common.GoList Gen.C18 C18.Model C18.Spec
-  C18.Proofs_match C18.Proofs_disk C18.Proofs_reload C18.Proofs_final C18.Proofs_equiv C18.Proofs_refresh C18.Proofs_walk C18.Proofs_examples C18.Proofs_fault C18.Proofs_allsteps C18.Proofs_spelling C18.Ack C18.Proofs_ack C18.Proofs_listed C18.Proofs_whole C18.Proofs_maps.
+  C18.Proofs_match C18.Proofs_disk C18.Proofs_reload C18.Proofs_final C18.Proofs_equiv C18.Proofs_refresh C18.Proofs_walk C18.Proofs_examples C18.Proofs_fault C18.Proofs_allsteps C18.Proofs_spelling C18.Ack C18.Proofs_ack C18.Proofs_listed C18.Proofs_whole C18.Proofs_maps C18.Proofs_ops.
 Open Scope N_scope.
 
 (* Matching is exact on whole labels, case-insensitive, whitelist first: for every
@@ -431,6 +431,37 @@ Theorem translated_exists_spec : forall (B : T_BlockList) (M W Wl : list name) (
   (go_BlockList_Exists fuel B (present q) = Some true <-> blocked_spec M W Wl (fold_name q)).
 Proof. exact translated_exists_spec_lemma. Qed.
 Print Assumptions translated_exists_spec.
+
+(* setLocked and removeLocked are tied to the source by TRANSLATION as well (receiver-mutating
+   methods: the translation hands the final receiver back).  [rep B b]: the BlockList of the
+   source holds exactly the model's three lists (every value true).  For every key — for
+   setLocked: whose canonical form is ASCII (persistable's translation is exact there) and shorter
+   than the fuel — the translated function gives the model's answer, leaves a BlockList that
+   again holds the model's lists, and touches nothing but the maps.  These two functions are ALL
+   that Set / Remove / SetBatch / RemoveBatch do to the memory (Model.apply_op), so the operation
+   steps of acknowledged_is_matched and listed_is_blocked rest on translated code; the four
+   source-text pins on setLocked / removeLocked ("*." twice, key[2:] twice) are dropped. *)
+Theorem setLocked_is_translated : forall (B : T_BlockList) (b : bl) (key0 : str) fuel,
+  rep B b -> (length (canonical key0) < fuel)%nat -> Forall (fun c => c < 128) (canonical key0) ->
+  exists B', go_BlockList_setLocked fuel B key0 = Some (fst (set_locked key0 b), B') /\
+             rep B' (snd (set_locked key0 b)) /\ same_rest B B'.
+Proof. exact gen_setLocked. Qed.
+Print Assumptions setLocked_is_translated.
+
+Theorem removeLocked_is_translated : forall (B : T_BlockList) (b : bl) (key0 : str),
+  rep B b ->
+  exists B', go_BlockList_removeLocked B key0 = (fst (remove_locked key0 b), B') /\
+             rep B' (snd (remove_locked key0 b)) /\ same_rest B B'.
+Proof. exact gen_removeLocked. Qed.
+Print Assumptions removeLocked_is_translated.
+
+(* the loops of SetBatch / RemoveBatch over the translated single steps are the model's batch *)
+Theorem batches_are_translated_steps : forall fuel ks B b n, rep B b ->
+  (Forall (key_ok fuel) ks ->
+   exists B', go_set_all fuel B ks n = Some (fst (batch set_locked ks b n), B') /\ rep B' (snd (batch set_locked ks b n))) /\
+  (exists B', go_remove_all B ks n = (fst (batch remove_locked ks b n), B') /\ rep B' (snd (batch remove_locked ks b n))).
+Proof. exact gen_batches. Qed.
+Print Assumptions batches_are_translated_steps.
 
 (* ABOUT THE PROPOSED CODE (props/C18/fix.patch, on offer for the finding
    blocklist-entry-spelling; NOT in /repo): with canonicalKey — as a function on names
